@@ -27,7 +27,7 @@ type blKind struct {
 func drawBacklog(t *rapid.T, allowFile bool) *blKind {
 	if allowFile && rapid.IntRange(0, 11).Draw(t, "file?") == 0 {
 		units := rapid.SampledFrom([]int{1, 1, 3}).Draw(t, "funits")
-		req := units*backlog.FileSizeAlign - rapid.SampledFrom([]int{0, 1, 4095}).Draw(t, "fless")
+		req := units*backlog.FileSizeAlign - rapid.SampledFrom([]int{0, 1, 4095, backlog.FileSizeAlign - 1, backlog.FileSizeAlign / 2, backlog.FileSizeAlign - 4097}).Draw(t, "fless")
 		bk := &blKind{name: "file", cap: uint64(units * backlog.FileSizeAlign)}
 		bk.mk = func() (*backlog.Backlog, func()) {
 			f, err := os.CreateTemp("", "verif-backlog-*")
@@ -128,7 +128,7 @@ func c18Sequential(t *rapid.T) {
 		case r := <-ch:
 			return r.n, r.err, false
 		case <-time.After(3 * time.Second):
-			check(false, "invalid-offset-blocks", "%s at offset %d (beyond the write position) has not returned after 3 s; want invalid offset at once", what, o)
+			check(false, "invalid-offset-blocks", "%s at offset %d has not returned after 3 s although it has nothing to wait for (beyond the write position: invalid offset at once; empty buffer: return at once)", what, o)
 			bl.Close() // frees the parked goroutine
 			return 0, nil, true
 		}
@@ -171,6 +171,18 @@ func c18Sequential(t *rapid.T) {
 			}
 			o := offsetAround(t, rposM(), wpos, "o")
 			k := rapid.SampledFrom([]int{1, 2, 64, 4096, 4097, int(bk.cap), int(bk.cap) + 1, 70000}).Draw(t, "rk")
+			if !closed && o <= wpos && o >= rposM() && rapid.IntRange(0, 7).Draw(t, "emptyBuf") == 3 {
+				// a read into an empty buffer has nothing to wait for: it returns at once, whatever it returns
+				if n, _, hung := guarded("ReadAt with an empty buffer", o, func() (int, error) { return bl.ReadAt([]byte{}, o) }); hung || n != 0 {
+					if !hung {
+						stop = check(false, "read-zero", "ReadAt(empty buffer at %d) returned %d bytes", o, n)
+					} else {
+						stop = true
+					}
+				}
+				ops++
+				return
+			}
 			if o == wpos && !closed {
 				t.Skip("would block")
 			}
